@@ -2267,8 +2267,31 @@ func (g *Gen) checkEnsures(ret *ssa.Return, st *State) {
 		if !pos.IsValid() {
 			pos = g.curPos
 		}
-		g.addObNoAssume("post", e.Label, pos, st, t.S)
+		g.addObNoAssume("post", e.Label+g.retSuffix(ret), pos, st, t.S)
 	}
+}
+
+// retSuffix distinguishes the postcondition obligations of different return statements (ordinal in source order).
+func (g *Gen) retSuffix(ret *ssa.Return) string {
+	var poss []token.Pos
+	for _, b := range g.f.Blocks {
+		if len(b.Instrs) == 0 {
+			continue
+		}
+		if r, ok := b.Instrs[len(b.Instrs)-1].(*ssa.Return); ok {
+			poss = append(poss, r.Pos())
+		}
+	}
+	if len(poss) < 2 {
+		return ""
+	}
+	sort.Slice(poss, func(i, j int) bool { return poss[i] < poss[j] })
+	for i, p := range poss {
+		if p == ret.Pos() {
+			return fmt.Sprintf("@ret%d", i+1)
+		}
+	}
+	return ""
 }
 
 // checkEnsuresOn checks the postconditions on a state reached through a recovered panic (results: zero values).
